@@ -5,8 +5,14 @@ import (
 	"verif/harness/checks/c02"
 	"verif/harness/checks/c03"
 	"verif/harness/checks/c04"
+	"verif/harness/checks/c06"
+	"verif/harness/checks/c08"
 	"verif/harness/checks/c09"
 	"verif/harness/checks/c12"
+	"verif/harness/checks/c13"
+	"verif/harness/checks/c14"
+	"verif/harness/checks/c15"
+	"verif/harness/checks/c19"
 )
 
 func init() {
@@ -14,6 +20,12 @@ func init() {
 	register("C02", "exploration", c02.Run, c02.Replay)
 	register("C03", "exploration", c03.Run, c03.Replay)
 	register("C04", "fault_enumeration", c04.Run, c04.Replay)
+	register("C06", "model_checking", c06.Run, c06.Replay)
+	register("C08", "exploration", c08.Run, c08.Replay)
 	register("C09", "exploration", c09.Run, c09.Replay)
 	register("C12", "exploration", c12.Run, c12.Replay)
+	register("C13", "exploration", c13.Run, c13.Replay)
+	register("C14", "model_checking", c14.Run, c14.Replay)
+	register("C15", "model_checking", c15.Run, c15.Replay)
+	register("C19", "model_checking", c19.Run, c19.Replay)
 }
